@@ -122,6 +122,7 @@ pub fn gen_config(prop: &str, tier: Tier, rng: &mut Rng) -> Config {
         factory_fails_on_restart: false,
         freeze: false,
         gated_restart: false,
+        builder_order: rng.below(6) as u8,
     };
     let lst = |rng: &mut Rng, uds_w: u64| -> Vec<Lst> {
         let n = if rng.chance(1, 3) { 2 } else { 1 };
@@ -216,6 +217,11 @@ pub fn gen_config(prop: &str, tier: Tier, rng: &mut Rng) -> Config {
                 _ => rng.range(0, 5),
             };
             c.freeze = rng.chance(1, 4);
+            // a worker may have been replaced before the stop: the replacement is stopped like any other
+            if rng.chance(1, 6) {
+                c.kills = true;
+                c.max_kills = 1;
+            }
             // a stop may arrive while a failed service is being re-created by a slow factory
             if rng.chance(1, 5) {
                 c.scripts = true;
